@@ -27,6 +27,9 @@ func init() {
 		NotDecided: "Semantic equivalence with the FRR-mode output (needs an interpretation of both); behaviour of frr-k8s itself.",
 		Run:        runC15,
 		Mutants: []Mutant{
+			{Name: "hand-over-outside-the-manager-lock", File: "internal/bgp/frrk8s/frrk8s.go",
+				Old: "\tsm.configChangedCallback(newConfig)\n",
+				New: "\tcallback := sm.configChangedCallback\n\tsm.Unlock()\n\tcallback(newConfig)\n\tsm.Lock()\n", Expect: "handed-over-under-the-lock"},
 			{Name: "reconcile-compares-bgp-section-only", File: "internal/k8s/controllers/frrk8s_config_controller.go",
 				Old: "\tif reflect.DeepEqual(current.Spec, r.desiredConfiguration.Spec) {",
 				New: "\tif reflect.DeepEqual(current.Spec.BGP, r.desiredConfiguration.Spec.BGP) {", Expect: "K8S-DELIVER"},
@@ -101,6 +104,35 @@ func runC15(p *chk.Prog, r *chk.Report) {
 			// the store precedes the signal
 			w := g.MustPass(chk.Site{}, func(n ast.Node) bool { _, isSend := n.(*ast.SendStmt); return isSend }, false, func(n ast.Node) bool { return n == st[0].Top })
 			ok = !w.Found
+		}
+		// building the configuration and handing it over is one step under the session manager's lock: the last
+		// configuration handed over is then the one of the current session set (a hand-over outside the lock can be overtaken
+		// by a newer one and arrive last)
+		if uf := need(x, p, fk8Pkg, "sessionManager", "updateConfig"); uf != nil {
+			la := locksOf(p)
+			lock := p.LockField(fk8Pkg, "sessionManager", "")
+			g := uf.Graph()
+			isCB := func(e ast.Expr) bool {
+				return uf.MatchNew("RECV.configChangedCallback", e) != nil || definedBy(g, "RECV.configChangedCallback")(e)
+			}
+			okH, nCalls := lock != nil, 0
+			ast.Inspect(uf.Body, func(n ast.Node) bool {
+				c, ok := n.(*ast.CallExpr)
+				if !ok {
+					return true
+				}
+				if lk, _ := uf.LockOp(c); lk != nil && lk == lock {
+					okH = false // releases (or re-takes) its callers' lock
+				}
+				if isCB(c.Fun) {
+					nCalls++
+					if _, held := la.HeldAt(uf, c)[lock]; !held {
+						okH = false
+					}
+				}
+				return true
+			})
+			x.Check("updateConfig:handed-over-under-the-lock", uf.Pos(), okH && nCalls == 1, "", "the configuration is handed to the reconciler outside the session manager's lock (or updateConfig releases its callers' lock): two updates can be delivered out of order and the stale one stays the last configuration handed over")
 		}
 		x.Check("UpdateConfig:store-copy-before-signal", uc.Pos(), ok, "", "the reconciler is signalled before (or without) the new configuration being stored as a private copy")
 	}
